@@ -848,6 +848,30 @@ def encode_callsite(case, nm, own_names=None, outer_names=None):
                                                    "; ".join(acts), own, outer)
 
 
+def pair_renaming(locals_, new_names):
+    """which symbol merged into the caller is which callee local: an unrenamed local keeps its name;
+    a renamed one is `<name>_<k>` (next_available_name).  Independent of symbol-table order.
+    -> [(local, new_name)] in the order of `locals_`, or None when no unambiguous pairing exists."""
+    import re
+    left = list(new_names)
+    out = {}
+    for l in locals_:
+        if l in left:
+            out[l] = l
+            left.remove(l)
+    for l in locals_:
+        if l in out:
+            continue
+        cands = [n for n in left if re.fullmatch(re.escape(l) + r"_\d+", n)]
+        if len(cands) != 1:
+            return None
+        out[l] = cands[0]
+        left.remove(cands[0])
+    if left:
+        return None
+    return [(l, out[l]) for l in locals_]
+
+
 def splice(caller, repl):
     """replace the (first) call statement of `caller` by the statement list `repl`."""
     out, done = [], [False]
